@@ -99,6 +99,8 @@ where
     #[inline(always)]
     fn refill_buffer(&mut self) {
         let buffer_len = self.remaining_file_bytes().min(Self::NORMAL_BUFFER_SIZE);
+        #[cfg(feature = "verif")]
+        rawdb::verif::access(self._lock.id(), self.file_offset - self._lock.start(), buffer_len, self._lock.len(), "RawIoSource::refill_buffer");
         self.file
             .read_exact(&mut self.buffer[..buffer_len])
             .expect("Failed to read file buffer");
